@@ -216,7 +216,8 @@ class B:
             else:
                 getattr(self, where)["lit"].append(f"{led}.blink(times={p2}, duration_ms={p1})"); getattr(self, where)["var"].append(f"{led}.blink(times={q2}, duration_ms={q1})")
         elif meth == "set_brightness":
-            e, _ = self.draw(st.sampled_from([("128", 128), ("(100 + 27)", 127), ("(255 - 0)", 255), ("int(12.9)", 12), ("(510 // 2)", 255), ("(17 % 256)", 17), ("abs(-40)", 40)]))
+            e, _ = self.draw(st.sampled_from([("128", 128), ("(100 + 27)", 127), ("(255 - 0)", 255), ("int(12.9)", 12), ("(510 // 2)", 255), ("(17 % 256)", 17), ("abs(-40)", 40),
+                                                ("12.9", 12), ("127.5", 127), ("(25.25 * 2)", 50), ("0.9", 0), ("(254.75 + 0.0)", 254), ("max(3.5, 1.5)", 3)]))
             p, q = self.route(e, None, where)
             getattr(self, where)["lit"].append(f"{led}.set_brightness({p})"); getattr(self, where)["var"].append(f"{led}.set_brightness({q})")
             self.both(where, [f"mon.write({led}.get_brightness())"])
